@@ -31,7 +31,8 @@ LABELS = {"MCLabels12": ["a", "b", "ab", "*", "a*", "*a", "a*b", "**", "xn--a", 
           "MCLabels6": ["a", "*", "*a", "xn--a", "", "A"],
           "MCLabels5": ["a", "*", "a*", "xn--a", ""]}
 TRLABELS = {"MCLabels12": "TrLabels12", "MCLabels8": "TrLabels8", "MCLabels6": "TrLabels6", "MCLabels5": "TrLabels5"}
-ADDRS = {1: "10.0.0.1", 2: "fe80::1", 3: "::ffff:10.0.0.1", 4: "10.0.0.2", 5: "2001:db8::5", 6: "192.168.1.9",
+# canonical lower-case literals, used verbatim as the "plain" spelling (3 is the IPv4-mapped form of 1)
+ADDRS = {1: "10.0.0.1", 2: "fe80::1", 3: "::ffff:a00:1", 4: "10.0.0.2", 5: "2001:db8::5", 6: "192.168.1.9",
          7: "::1"}
 NSHARD = 16
 
@@ -40,7 +41,7 @@ BASE = """CONSTANTS Labels <- {labels}
   MaxHostLabels = {ml}
   KnownDefects <- {kd}
   RepEntries <- {re}
-  RepHosts <- MCHosts
+  RepHosts <- {rh}
   RepCNs <- MCCNs
   MaxSan = {ms}
   FpDepth = {fd}
@@ -70,7 +71,7 @@ CHECK_DEADLOCK FALSE
 
 
 def cfg(spec, invs=(), props=(), view=None, **kw):
-    d = dict(labels="MCLabels12", ml=2, kd="NoDefects", re="MCEntries", ms=2, fd=1, fs=8, k=1, s=0)
+    d = dict(labels="MCLabels12", ml=2, kd="NoDefects", re="MCEntries", rh="MCHosts", ms=2, fd=1, fs=8, k=1, s=0)
     d.update(kw)
     t = "SPECIFICATION " + spec + "\n" + BASE.format(**d)
     t += "".join("INVARIANT " + i + "\n" for i in invs) + "".join("PROPERTY " + p + "\n" for p in props)
@@ -131,7 +132,7 @@ def syms_name(n):            # inverse; n == [] is "no name"
 
 def ip_text(a, sp):
     ip = ipaddress.ip_address(ADDRS[a])
-    plain = str(ip)
+    plain = ADDRS[a]
     v6 = ip.version == 6
     if sp == "plain" or (not v6 and sp in ("alt", "ossl")):
         return plain
@@ -147,18 +148,12 @@ def ip_text(a, sp):
         return "[" + plain + "]"
     if sp == "brackzoned":
         return "[" + plain + "%eth0]"
-    if sp == "text":
-        return plain
-    if sp == "wild":
-        return "*" + (plain[plain.index("."):] if not v6 else plain[1:])
     raise tlc.MachineryError("spelling " + sp)
 
 
 def entry_pair(e):
     if e["t"] == "DNS":
         return ("DNS", syms_name(e["n"]))
-    if e["t"] == "DNSIP":
-        return ("DNS", ip_text(e["a"], e["sp"]))
     if e["t"] == "IP":
         sp = e["sp"]
         if sp == "alt":
@@ -168,7 +163,18 @@ def entry_pair(e):
 
 
 def host_text(h):
-    return syms_name(h["n"]) if h["k"] == "dns" else ip_text(h["a"], h["sp"])
+    """The string handed to the API is ALWAYS the text the spec sees (h.n); for an ip host the harness checks
+    that this text is the literal of address h.a in spelling h.sp, and that the interpreter agrees on the value."""
+    t = syms_name(h["n"])
+    if h["k"] == "ip":
+        want = ip_text(h["a"], h["sp"])
+        if t != want or ipaddress.ip_address(t.strip("[]").split("%")[0]) != ipaddress.ip_address(ADDRS[h["a"]]):
+            raise tlc.MachineryError(f"ip host text {t!r} is not address {h['a']} spelled {h['sp']} ({want!r})")
+    return t
+
+
+def ip_host(a, sp):
+    return {"k": "ip", "n": name_syms(ip_text(a, sp)), "a": a, "sp": sp}
 
 
 def make_cert(entries, cn):
@@ -302,7 +308,7 @@ def _list_shard(args):
         got["recs"].extend(tlc.tagged_json(ln, "LS"))
         return True
 
-    r = tlc.run("MC_HostMatch", cfg("ListsSpec", ["EmitLists"], ms=plan["ms"], re=plan["re"], kd="AbortDefect",
+    r = tlc.run("MC_HostMatch", cfg("ListsSpec", ["EmitLists"], ms=plan["ms"], re=plan["re"], rh=plan["rh"], kd="AbortDefect",
                                     k=NSHARD, s=s), workers=1, on_line=on_line, timeout=7200)
     return {"dom": got["dom"], "pending": got["recs"], "distinct": r.distinct}
 
@@ -310,7 +316,7 @@ def _list_shard(args):
 def _list_replay(args):
     dom, recs = args
     entries, hosts, cns = dom["entries"], dom["hosts"], dom["cns"]
-    allcases = [(h, c, on, api) for c in range(len(cns) + 1) for h in range(1, len(hosts) + 1)
+    allcases = [(h, c, on, api) for c in range(len(cns) + 1) for h in sorted(dom["hsel"])
                 for on in (False, True) for api in ("raw", "wrap")]
     st = dict(lists=0, calls=0, bad=[], drift=[], nontriv=set(), traces=[], samples=[])
     for rec in recs:
@@ -373,8 +379,11 @@ def _rand_list_shard(args):
             t = rng.random()
             if t < 0.6:
                 e = {"t": "DNS", "n": _rand_name(rng, ls, 4), "a": 0, "sp": "-"}
-            elif t < 0.7:
-                e = {"t": "DNSIP", "n": [], "a": rng.randint(1, 7), "sp": rng.choice(["text", "wild"])}
+            elif t < 0.7:           # a dNSName whose text is (a wildcarded form of) an IP address
+                txt = ADDRS[rng.randint(1, 7)]
+                if rng.random() < 0.5:
+                    txt = "*" + (txt[txt.index("."):] if "." in txt else txt[1:])
+                e = {"t": "DNS", "n": name_syms(txt), "a": 0, "sp": "-"}
             elif t < 0.92:
                 e = {"t": "IP", "n": [], "a": rng.randint(1, 7), "sp": rng.choice(["plain", "alt", "nl"])}
             else:
@@ -387,7 +396,7 @@ def _rand_list_shard(args):
         h0 = len(hosts)
         for _ in range(6):
             t = rng.random()
-            dns_e = [e for e in mine if e["t"] == "DNS"]
+            dns_e = [e for e in mine if e["t"] == "DNS" and not any(c.isdigit() or c == ":" for l in e["n"] for c in l)]
             if t < 0.45 and dns_e:      # a host derived from an entry: stars replaced, one label perturbed
                 src = rng.choice(dns_e)["n"]
                 n = [[rng.choice("abA") if c == "*" and rng.random() < 0.8 else c for c in l] for l in src]
@@ -402,8 +411,8 @@ def _rand_list_shard(args):
             else:
                 a = rng.randint(1, 7)
                 v6 = ":" in ADDRS[a]
-                h = {"k": "ip", "n": [], "a": a,
-                     "sp": rng.choice(["plain", "alt", "zoned", "brack", "brackzoned"]) if v6 else "plain"}
+                h = ip_host(a, rng.choice(["plain", "alt", "zoned", "brack", "brackzoned"] if v6 else
+                                          ["plain", "plain", "brack"]))
             hosts.append(h)
             hi = len(hosts)
             for c in (0, cn0 + 1):
@@ -593,9 +602,18 @@ def run(rep):
                        "the anchored regex of _dnsname_match is transcribed label-wise in MATCHER"]
     pair_plans = ([dict(labels="MCLabels12", ml=2), dict(labels="MCLabels8", ml=3)] if quick else
                   [dict(labels="MCLabels12", ml=3), dict(labels="MCLabels5", ml=4)])
-    list_plan = dict(ms=2, re="MCEntries") if quick else dict(ms=3, re="MCEntries")
+    list_plan = dict(ms=2, re="MCEntriesQ", rh="MCHostsQ") if quick else dict(ms=3, re="MCEntries", rh="MCHosts")
     fp_plan = dict(fd=2, fs=8) if quick else dict(fd=2, fs=1)
     tallies = {"pairs": [0, 0, 0, 0], "lists": [0, 0, 0, 0], "pins": [0, 0, 0, 0]}
+
+    import time
+    phases, last = {}, [time.time()]
+    rep.extra["phase_wall_s"] = phases
+
+    def tick(name):
+        now = time.time()
+        phases[name] = round(phases.get(name, 0) + now - last[0], 1)
+        last[0] = now
 
     def add_tally(k, t):
         tallies[k] = [a + b for a, b in zip(tallies[k], t)]
@@ -641,13 +659,16 @@ def run(rep):
             raise tlc.MachineryError(f"the ABORT deviation was expected to break exactly ListAcceptsStrict on a "
                                      f"multi-wildcard entry, TLC says {r.violated}")
         rep.extra["stage1_expected_counterexample"] = "ListAcceptsStrict fails with KnownDefects={ABORT} (as recorded)"
+        # one worker: with a VIEW hiding the depth counter only strict BFS order makes the reached set
+        # deterministic (a pin first met at a larger depth would otherwise cut its successors off)
         r = tlc.run("MC_HostMatch", cfg("FpSpec", FP_INVS, ["FpCaseColonBlind"], view="FpView", **fp_plan),
-                    workers="auto")
+                    workers=1)
         rep.add_tlc(f"FpSpec {fp_plan}", r)
         fp_states = r.distinct
         if r.violated:
             rep.violation("MatcherVsRules", f"TLC: {r.violated} violated in FpSpec", None)
 
+        tick("stage1")
         # ---- pairs: emission + replay + judgement, sharded
         for plan in pair_plans:
             outs = pool.map(_pair_shard, [(plan, s) for s in range(NSHARD)])
@@ -663,6 +684,7 @@ def run(rep):
                 add_tally("pairs", o["tally"])
                 for s in o["samples"]:
                     rep.sample(s, cap=2)
+        tick("pairs")
         # ---- lists
         outs = pool.map(_list_shard, [(list_plan, s) for s in range(NSHARD)])
         dom = outs[0]["dom"]
@@ -682,11 +704,13 @@ def run(rep):
             add_tally("lists", o["tally"])
             for s in o["samples"][:1]:
                 rep.sample(s, cap=4)
+        tick("lists")
         nr, pr = (3200, 200) if quick else (96000, 2000)
         outs = pool.map(_rand_list_shard, [(rep.seed * 100003 + i, pr) for i in range(nr // pr)])
         for o in outs:
             absorb(o, "random lists")
             add_tally("lists", o["tally"])
+        tick("random lists")
         # ---- pins
         ders = make_blobs(rep.seed)
         fprecs = []
@@ -711,11 +735,13 @@ def run(rep):
             add_tally("pins", o["tally"])
             for s in o["samples"][:1]:
                 rep.sample(s, cap=6)
+        tick("pins")
         nr, pr = (16, 150) if quick else (64, 1500)
         outs = pool.map(_fp_random, [(rep.seed * 7919 + i, pr, ders) for i in range(nr)])
         for o in outs:
             absorb(o, "random pins")
             add_tally("pins", o["tally"])
+    tick("random pins")
     for k, t in tallies.items():
         rep.extra[k + "_judged_by_tlc"] = {"cases": t[0], "must_accept": t[1], "must_reject": t[2], "either": t[3]}
         if not t[1] or not t[2] or (k != "pins" and not t[3]):
